@@ -153,16 +153,17 @@ def run(ch, config, res):
                 struct, values = E.gen_definition(wl, "def", "c06")
                 conds, acts, mt = E.fill(struct, values)
                 bconds, bacts, _ = E.fill(struct, E.benign_values(len(values)))
+                default_mt = mt == "anyof" and wl.flag("default_matchtype", 1, 2)
                 n2 = NAMES[wl.int("name2", len(NAMES))] if op == "update" else None
                 label += " def=%r" % ((conds, acts, mt),)
                 if op == "add":
-                    rc = E.classify(lambda: (fs.addfilter(n, conds, acts, mt), True)[1])
-                    rb = E.classify(lambda: (fsb.addfilter(n, bconds, bacts, mt), True)[1])
+                    rc = E.classify(lambda: (fs.addfilter(n, conds, acts, mt) if not default_mt else fs.addfilter(n, conds, acts), True)[1])
+                    rb = E.classify(lambda: (fsb.addfilter(n, bconds, bacts, mt) if not default_mt else fsb.addfilter(n, bconds, bacts), True)[1])
                     if rc[0] == "ok":
                         model.append(MF(n, struct, values))
                 else:
-                    rc = E.classify(lambda: fs.updatefilter(n, n2, conds, acts, mt))
-                    rb = E.classify(lambda: fsb.updatefilter(n, n2, bconds, bacts, mt))
+                    rc = E.classify(lambda: (fs.updatefilter(n, n2, conds, acts, mt) if not default_mt else fs.updatefilter(n, n2, conds, acts)))
+                    rb = E.classify(lambda: (fsb.updatefilter(n, n2, bconds, bacts, mt) if not default_mt else fsb.updatefilter(n, n2, bconds, bacts)))
                     if rc[0] == "ok":
                         m = model[find(n)]
                         m.name, m.struct, m.values = n2, struct, values
